@@ -63,13 +63,6 @@ theorem alookup_none_iff {α : Type} (k : Str) (xs : List (Str × α)) :
 
 /-! ### header names -/
 
-/-- a character that may occur in a header segment -/
-def okChar (c : Char) : Bool :=
-  c != '.' && c != ':' && c != '=' && c != '*' && !pyWs c && c != '{'
-
-/-- a header segment: non-empty, no `.`, `:`, `=`, `*`, `{`, no whitespace -/
-def simpleName (n : Str) : Bool := !n.isEmpty && n.all okChar
-
 /-- a (dotted) header: like a segment, but `.` allowed -/
 def keyChar (c : Char) : Bool := c != ':' && c != '=' && c != '*' && !pyWs c
 
